@@ -5,7 +5,8 @@
 (*   scn       a scenario starts                                                                   *)
 (*   lat       C06: all Route.Dispatch calls of the scenario: slowest (us), calls over the bound, stuck  *)
 (*   phase     C06: counters at quiescence of a steady phase the driver declared after observing   *)
-(*             the transition: steady = "healthy" | "down" | "" (no identity demanded)             *)
+(*             the transition: steady = "healthy" | "down" | "paused" (endpoint stalled for many   *)
+(*             flush periods, never closed, then read everything) | "" (no identity demanded)      *)
 (*   up/down/cut  C07: endpoint transitions (informational)                                         *)
 (*   handed    C07: ids 1..n were handed to the destination                                         *)
 (*   recv      C07: the id ranges one endpoint incarnation received intact                          *)
@@ -33,6 +34,7 @@ TLat   == Is("lat") /\ WithinBound(Ev.max_us, Ev.over_bound, Ev.stuck) /\ Keep
 TPhase == /\ Is("phase") /\ Keep
           /\ (Ev.steady = "healthy" => HealthyIdentity(Ev.handed, Ev.received, Ev.slow_conn))
           /\ (Ev.steady = "down" => DownIdentity(Ev.handed, Ev.received, Ev.down))
+          /\ (Ev.steady = "paused" => PausedIdentity(Ev.handed, Ev.received, Ev.slow_conn, Ev.down))
 THanded == Is("handed") /\ nh' = Ev.n /\ UNCHANGED rcv
 RangeSet(rs) == UNION {(rs[i][1])..(rs[i][2]) : i \in 1..Len(rs)}
 TRecv  == /\ Is("recv") /\ UNCHANGED nh
